@@ -47,7 +47,14 @@ LeafSeq == << T(<<"t">>), Out(Var(<<"x">>)), Out(Var(<<"forloop", "Counter">>)),
             [t |-> "spaceless", body |-> <<T(<<"<", "i", ">", " ", "<", "b", ">">>), Out(Var(<<"x">>)), T(<<"<", "/", "b", ">", " ", "NL", "<", "/", "i", ">">>)>>],
             [t |-> "comment", body |-> <<Out(Var(<<"x">>)), [t |-> "cycle", args |-> <<Lit(S(<<"a">>))>>, as |-> "", silent |-> FALSE]>>],
             [t |-> "ifequal", neg |-> FALSE, a |-> Var(<<"x">>), b |-> Lit(I(1)), body |-> <<T(<<"=">>)>>, els |-> <<T(<<"#">>)>>],
-            [t |-> "ifequal", neg |-> TRUE, a |-> Var(<<"x">>), b |-> Lit(S(<<"b">>)), body |-> <<T(<<"!">>)>>, els |-> <<>>] >>
+            [t |-> "ifequal", neg |-> TRUE, a |-> Var(<<"x">>), b |-> Lit(S(<<"b">>)), body |-> <<T(<<"!">>)>>, els |-> <<>>],
+            \* sequences and maps are never equal to anything, themselves included; the two tags stay complementary
+            [t |-> "ifequal", neg |-> FALSE, a |-> Var(<<"l3">>), b |-> Var(<<"l3">>), body |-> <<T(<<"=">>)>>, els |-> <<T(<<"#">>)>>],
+            [t |-> "ifequal", neg |-> TRUE, a |-> Var(<<"l3">>), b |-> Var(<<"l3">>), body |-> <<T(<<"!">>)>>, els |-> <<T(<<"~">>)>>],
+            [t |-> "ifequal", neg |-> FALSE, a |-> Var(<<"m2">>), b |-> Var(<<"m2">>), body |-> <<T(<<"=">>)>>, els |-> <<T(<<"#">>)>>],
+            [t |-> "ifequal", neg |-> FALSE, a |-> Var(<<"l0">>), b |-> Var(<<"m0">>), body |-> <<T(<<"=">>)>>, els |-> <<T(<<"#">>)>>],
+            [t |-> "ifequal", neg |-> FALSE, a |-> Var(<<"x">>), b |-> Var(<<"x">>), body |-> <<T(<<"=">>)>>, els |-> <<T(<<"#">>)>>],
+            [t |-> "ifequal", neg |-> TRUE, a |-> Var(<<"x">>), b |-> Var(<<"x">>), body |-> <<T(<<"!">>)>>, els |-> <<T(<<"~">>)>>] >>
 Leaves == {LeafSeq[i] : i \in DOMAIN LeafSeq}
 
 ElseOpts == {<<>>, <<T(<<"E">>)>>}
